@@ -20,8 +20,11 @@ import H3.Gen.HuffEnc
     D-15.  `check_eof` is reached when the `lookup` bits of the *current level* are not there and
     judges only the bits from that level's start to the end of the input.  Bits of the
     unfinished symbol that earlier levels have consumed are never looked at again.  The model
-    keeps this behaviour; `hdecodeX` additionally reports (ghost output, not in the code) whether
-    the bits after the last complete symbol violate RFC 7541 §5.2 (`lax = true`). -/
+    keeps this behaviour; `hdecodeX` additionally reports (ghost output, not in the code) through which
+    ending it accepted: `laxAt`, computed from the window `check_eof` was called with — more than 7 bits
+    consumed-or-judged behind the last complete symbol, or a zero among the consumed ones (`lax = true`);
+    that this is "violates RFC 7541 §5.2" is a theorem (`laxAt_eq`), and the flagged set is enumerated exactly
+    (`C15_huffman_lax_set_exact`). -/
 namespace H3.Huffman
 open H3.Bits
 open H3.Gen.HuffDec (Level Entry)
@@ -114,13 +117,27 @@ def entryGo : Entry → BitWindow → List Nat → BitWindow × Step
 end
 
 /-- RFC 7541 §5.2 on what follows the last complete symbol (which starts at bit `pos`): fewer
-    than eight bits, all ones.  Used for the ghost output only. -/
+    than eight bits, all ones.  Not used by the model: the reference `laxAt` is proved equal to. -/
 def padOK (input : List Nat) (pos : Nat) : Bool :=
   let tail := (bitsOf input).drop pos
   decide (tail.length ≤ 7) && tail.all (· == true)
 
+/-- The D-15 flag, from the branch of `check_eof` that answered `Ok(None)`.  `symStart` = the bit at which the
+    unfinished symbol starts (the end of the last complete one), `w'` = the window `check_eof` was called with (the
+    window of the level whose `lookup` bits are not there).  `check_eof` judges the bits from that level's start
+    to the end of the input only — none in the arm `Ordering::Greater`, the rest of the last byte in the arm
+    `Ordering::Equal`; the bits between `symStart` and the level's start have been consumed by the levels above and
+    are never looked at again.  Flag: consumed + judged bits are more than 7, or a consumed bit is zero.
+    On every accepting run this is "the bits behind the last complete symbol are not a valid RFC 7541 §5.2
+    padding" (`padOK`; `H3.Huffman.laxAt_eq`), and the set of flagged inputs is enumerated exactly by
+    `C15_huffman_lax_set_exact`. -/
+def laxAt (input : List Nat) (symStart : Nat) (w' : BitWindow) : Bool :=
+  let levelStart := 8 * w'.byte + w'.bit
+  let consumed := ((bitsOf input).drop symStart).take (levelStart - symStart)
+  decide (7 < (levelStart - symStart) + (8 * input.length - levelStart)) || consumed.any (· == false)
+
 /-- The loop `for byte in payload.hpack_decode() { decoded.push(byte?) }` around
-    `DecodeIter::next`.  Second component: D-15 ghost flag (`true` = the accepted ending is not
+    `DecodeIter::next`.  Second component: D-15 flag (`laxAt`: `true` = the accepted ending is not
     a valid padding). -/
 def decodeAll (root : Level) : Nat → BitWindow → List Nat → Except Err (List Nat × Bool)
   | 0, _, _ => .error .fuel
@@ -130,7 +147,7 @@ def decodeAll (root : Level) : Nat → BitWindow → List Nat → Except Err (Li
       match decodeAll root fuel w' input with
       | .ok (r, lax) => .ok (s :: r, lax)
       | .error e => .error e
-    | (_, .done) => .ok ([], !padOK input w.endPos)
+    | (w', .done) => .ok ([], laxAt input w.endPos w')
     | (_, .err e) => .error e
 
 /-- `Vec<u8>::hpack_decode()` collected, with the ghost flag. -/
@@ -283,7 +300,7 @@ def decodeAllC (root : Level) : Nat → BitWindow → List Nat → Option (Excep
       | none => none
       | some (.ok (r, lax)) => some (.ok (s :: r, lax))
       | some (.error e) => some (.error e)
-    | some (_, .done) => some (.ok ([], !padOK input w.endPos))
+    | some (w', .done) => some (.ok ([], laxAt input w.endPos w'))
     | some (_, .err e) => some (.error e)
 
 /-- `Vec<u8>::hpack_decode()` collected, every machine operation checked: `none` = one of them overflows
